@@ -192,17 +192,15 @@ def phase_mc(c, tier, g):
     else:
         cfgs = ["MC_Node_3x.cfg", "MC_Node_4.cfg", "MC_Node_4c.cfg"]
     with cf.ThreadPoolExecutor(max_workers=3) as ex:
-        # quick: no per-action coverage (it costs 6x); the state count is the vacuity guard there
-        ress = list(ex.map(lambda x: V.tlc(PID, "MC_Node", x, workers=3 if tier == "quick" else 4, timeout=1700, xmx="5g",
-                                           coverage=(tier != "quick")), cfgs))
+        # no per-action coverage statistics: they cost a factor of 6 on this model (1 M states would take an hour); the
+        # vacuity guards are the state counts and, in the thorough tier, the reachability probes that must be violated
+        ress = list(ex.map(lambda x: V.tlc(PID, "MC_Node", x, workers=3, timeout=1700, xmx="5g", coverage=False), cfgs))
     g["mc"] = []
     for cfg, res in zip(cfgs, ress):
         if res["violated"]:
             c.violation("growth-node/model/" + res["violated"], "MC_Node violates %s in %s" % (res["violated"], cfg),
                         {"kind": "growth_node_model", "cfg": cfg, "tlc_tail": res["out"][-3000:]})
-        if tier != "quick":
-            V.require_coverage(res, ACTIONS, cfg)
-        elif res["distinct"] < 20000:
+        if res["distinct"] < (20000 if tier == "quick" else 400000):
             raise V.ToolError("vacuous model run (%s): %d states" % (cfg, res["distinct"]))
         c.add_tlc(res, "growth:" + cfg)
         g["mc"].append({"cfg": cfg, "distinct": res["distinct"], "generated": res["generated"], "wall_s": res["wall_s"]})
